@@ -9,3 +9,24 @@ pub assume_specification<T, U, F: FnOnce(T) -> U> [Option::<T>::map_or] (o: Opti
     where T: core::marker::Destruct, U: core::marker::Destruct
     requires o is Some ==> call_requires(f, (o->Some_0,)),
     ensures match o { None => r == default, Some(v) => call_ensures(f, (v,), r) };
+// bitwise and / or / xor are commutative: called by the proof hints of functions that pack or mask bits, so that the hints serve
+// whichever way round the code writes the operands
+pub proof fn lemma_bitops_commute()
+    ensures
+        forall|x: u8, y: u8| #[trigger] (x | y) == (y | x), forall|x: u8, y: u8| #[trigger] (x & y) == (y & x), forall|x: u8, y: u8| #[trigger] (x ^ y) == (y ^ x),
+        forall|x: u16, y: u16| #[trigger] (x | y) == (y | x), forall|x: u16, y: u16| #[trigger] (x & y) == (y & x), forall|x: u16, y: u16| #[trigger] (x ^ y) == (y ^ x),
+        forall|x: u32, y: u32| #[trigger] (x | y) == (y | x), forall|x: u32, y: u32| #[trigger] (x & y) == (y & x), forall|x: u32, y: u32| #[trigger] (x ^ y) == (y ^ x),
+        forall|x: usize, y: usize| #[trigger] (x | y) == (y | x), forall|x: usize, y: usize| #[trigger] (x & y) == (y & x),
+{
+    assert(forall|x: u8, y: u8| #[trigger] (x | y) == (y | x)) by (bit_vector);
+    assert(forall|x: u8, y: u8| #[trigger] (x & y) == (y & x)) by (bit_vector);
+    assert(forall|x: u8, y: u8| #[trigger] (x ^ y) == (y ^ x)) by (bit_vector);
+    assert(forall|x: u16, y: u16| #[trigger] (x | y) == (y | x)) by (bit_vector);
+    assert(forall|x: u16, y: u16| #[trigger] (x & y) == (y & x)) by (bit_vector);
+    assert(forall|x: u16, y: u16| #[trigger] (x ^ y) == (y ^ x)) by (bit_vector);
+    assert(forall|x: u32, y: u32| #[trigger] (x | y) == (y | x)) by (bit_vector);
+    assert(forall|x: u32, y: u32| #[trigger] (x & y) == (y & x)) by (bit_vector);
+    assert(forall|x: u32, y: u32| #[trigger] (x ^ y) == (y ^ x)) by (bit_vector);
+    assert(forall|x: usize, y: usize| #[trigger] (x | y) == (y | x)) by (bit_vector);
+    assert(forall|x: usize, y: usize| #[trigger] (x & y) == (y & x)) by (bit_vector);
+}
